@@ -22,7 +22,7 @@ from openpyxl import load_workbook, Workbook
 from openpyxl.cell.cell import Cell, MergedCell
 from openpyxl.formula.translate import Translator
 
-from pycel.excelutil import AddressCell, AddressRange, flatten, is_address
+from pycel.excelutil import AddressCell, AddressRange, is_address
 
 ARRAY_FORMULA_NAME = '=CSE_INDEX'
 ARRAY_FORMULA_FORMAT = '{}(%s,%s,%s,%s,%s)'.format(ARRAY_FORMULA_NAME)
@@ -79,11 +79,16 @@ class _OpxRange(ExcelWrapper.RangeData):
             # if this range refers to a CSE Array Formula, get the formula
             front, *args = cells[0][0].value[:-1].rsplit(',', 4)
 
+            def is_member(cell, row, col):
+                # of the same array formula, and at this position in it
+                return isinstance(cell.value, str) and (
+                    cell.value[:-1].rsplit(',', 4)[:3] ==
+                    [front, str(row), str(col)])
+
             # if this range corresponds to the top left of a CSE Array formula
-            if (args[0] == args[1] == '1') and all(
-                    isinstance(c.value, str) and
-                    c.value[:-1].rsplit(',', 4)[0] == front
-                    for c in flatten(cells)):
+            if all(is_member(c, row, col)
+                   for row, line in enumerate(cells, 1)
+                   for col, c in enumerate(line, 1)):
                 # apply formula to the range
                 formula = '={%s}' % front[len(ARRAY_FORMULA_NAME) + 1:]
         else:
